@@ -145,21 +145,28 @@ deriving Repr, DecidableEq
 def Kad.kickCandidates (k : Kad) (bin : Nat) : List Addr :=
   (k.connected.bins.getD bin []).filter (fun a => !k.static.contains a)
 
+/-- what the environment sees of one `Connected` call: its result and the peer that
+`randomPeer` + `p2p.Disconnect` kicked out (bootnode mode only) -/
+structure Obs where
+  out : ConnOut
+  kicked : Option Addr
+deriving Repr, DecidableEq
+
 /-- `Kad.Connected(ctx, peer, forceConnection)`.  `kick` is the peer the real code's
 `randomPeer` picked (observed by the harness); it must be one of `kickCandidates`. -/
-def Kad.connectedEv (k : Kad) (a : Addr) (force : Bool) (kick : Option Addr) : Kad × ConnOut :=
+def Kad.connectedEv (k : Kad) (a : Addr) (force : Bool) (kick : Option Addr) : Kad × Obs :=
   let po := proximity k.base a
   if (k.binSaturated po).2 && !k.isProtected a then
     if k.bootMode then
-      if (k.kickCandidates po).isEmpty then (k, .err)            -- errEmptyBin
+      if (k.kickCandidates po).isEmpty then (k, ⟨.err, none⟩)            -- errEmptyBin
       else match kick with
         | some x =>
-          if (k.kickCandidates po).contains x then ((k.disconnected x).onConnected a, .ok)
-          else (k, .badAnnot)
-        | none => (k, .badAnnot)
-    else if !force then (k, .oversat)
-    else (k.onConnected a, .ok)
-  else (k.onConnected a, .ok)
+          if (k.kickCandidates po).contains x then ((k.disconnected x).onConnected a, ⟨.ok, some x⟩)
+          else (k, ⟨.badAnnot, none⟩)
+        | none => (k, ⟨.badAnnot, none⟩)
+    else if !force then (k, ⟨.oversat, none⟩)
+    else (k.onConnected a, ⟨.ok, none⟩)
+  else (k.onConnected a, ⟨.ok, none⟩)
 
 /-- `Kad.Outbound(peer)`; `boot` = `peer.Mode.IsBootNode()` -/
 def Kad.outbound (k : Kad) (a : Addr) (boot : Bool) : Kad :=
@@ -194,6 +201,30 @@ def Kad.addPeers (k : Kad) (as : List Addr) : Kad := { k with known := k.known.a
 
 /-- `Kad.RefreshProtectPeer` -/
 def Kad.setProtect (k : Kad) (as : List Addr) : Kad := { k with protect := as }
+
+/-- the events the harness drives (one op line each) -/
+inductive Ev where
+  | add (as : List Addr)
+  | conn (a : Addr) (force : Bool) (kick : Option Addr)
+  | out (a : Addr) (boot : Bool)
+  | disc (a : Addr)
+  | force (a : Addr)
+  | protect (as : List Addr)
+  | reach (a : Addr) (status : Nat)
+  | self (status : Nat)
+  | radius (r : Nat)
+deriving Repr
+
+def Kad.apply (k : Kad) : Ev → Kad × Obs
+  | .add as => (k.addPeers as, ⟨.ok, none⟩)
+  | .conn a f kick => k.connectedEv a f kick
+  | .out a boot => (k.outbound a boot, ⟨.ok, none⟩)
+  | .disc a => (k.disconnected a, ⟨.ok, none⟩)
+  | .force a => (k.disconnectForce a, ⟨.ok, none⟩)
+  | .protect as => (k.setProtect as, ⟨.ok, none⟩)
+  | .reach a s => (k.setReachable a s, ⟨.ok, none⟩)
+  | .self s => (k.updateReachability s, ⟨.ok, none⟩)
+  | .radius r => (k.setRadius r, ⟨.ok, none⟩)
 
 /-- connected peers with reachability flags in `EachPeerRev` order -/
 def Kad.connFlags (k : Kad) : List (Addr × Bool) := k.connected.toList.map (fun a => (a, k.reachable a))
